@@ -58,14 +58,19 @@ def _random_records(ctx, count, nmax):
     rng = np.random.RandomState(ctx.seed + 7)
     recs = []
     for rid in range(1, count + 1):
-        n = int(rng.randint(1, nmax + 1))
+        n = int(rng.randint(1, nmax + 1)) if rid % 4 else int(rng.randint(5, 80))
         nid = int(rng.choice([2, 5, 40, 300]))
         pool = np.sort(rng.choice(np.arange(0, 2 * nid + 5), size=nid, replace=False))
         v = as_list(pool[rng.randint(0, nid, size=n)])
         dtype = DTYPES[rid % 4]
         with_ids = bool(rid % 3 == 0)
         ids = as_list(np.cumsum(rng.randint(1, 4, size=n))) if with_ids else list(range(n))
-        req = as_list(rng.permutation(np.r_[pool[:6], [2 * nid + 7]])[:int(rng.randint(0, 6))])
+        if rid % 4 == 0:
+            # a LONG request list over a wide id range (most of the ids present, several absent ones)
+            cand = np.unique(np.r_[pool, rng.randint(0, 20 * nid + 50, size=30)])
+            req = as_list(rng.permutation(cand)[:int(rng.randint(10, min(len(cand), 60) + 1))])
+        else:
+            req = as_list(rng.permutation(np.r_[pool[:6], [2 * nid + 7]])[:int(rng.randint(0, 6))])
         lookup = as_list(rng.permutation(np.unique(np.r_[v, pool[:3]])))
         w = as_list(rng.randint(-20, 20, size=n))
         vv = np.asarray(v, dtype=dtype)
@@ -144,7 +149,7 @@ def run(ctx):
         raise MachineryError('replayed %d of %d cases' % (k, n))
     recs = []
     with ctx.guard('trace', None, seconds=300):
-        recs = _random_records(ctx, 60 if ctx.quick else 400, 1000)
+        recs = _random_records(ctx, 120 if ctx.quick else 800, 1000)
     if ctx.abort or not recs:
         return
     recs += _model_records(ctx, 60 if ctx.quick else 600, len(recs) + 1)
